@@ -681,5 +681,15 @@ def _lerax_to_gym(S):
     C01.unit_gym_adapter(S)
 
 
+def _step_through(stack):
+    """`step` of a wrapper stack (the shared AbstractEnvLike.step every wrapper inherits; contract stated in C01): the flags step reports are terminal / truncate of the transition
+    taken, so TimeLimit(N) raises truncation through `step` at exactly the N-th step, also when the inner environment terminates on that very step"""
+    def unit(S):
+        from contracts import C01
+        C01.unit_stack(stack)(S)
+    return unit
+
+
 UNITS = [("constructible", unit_constructible)] + [(f"pass:{n}", unit_passthrough(n)) for n in WRAPPERS] + \
-        [("rescale", unit_rescale), ("timelimit", unit_timelimit), ("gymnax", unit_gymnax), ("gym", unit_gym), ("lerax-to-gym", _lerax_to_gym)]
+        [("rescale", unit_rescale), ("timelimit", unit_timelimit), ("gymnax", unit_gymnax), ("gym", unit_gym), ("lerax-to-gym", _lerax_to_gym)] + \
+        [(f"step:{s}", _step_through(s)) for s in ("TimeLimit", "TimeLimit-discrete-masked", "ClipReward(TimeLimit)", "Flatten(Rescale(TimeLimit))", "TimeLimit(TimeLimit)")]
